@@ -406,3 +406,49 @@ impl Zeroconf {
         ensures *final(self) == (Zeroconf { hostname_resolvers: final(self).hostname_resolvers, timers: final(self).timers, ..*old(self) }),
     { unimplemented!() }
 }
+// ---- exec_command_unregister, reply and goodbye side ----
+// R20 for Zeroconf::unregister_service (proved in unit goodbye: builds and multicasts the goodbye on that interface and socket,
+// returns the packet bytes): the same call plus a ghost log of (service, interface, socket, packet returned)
+pub ghost struct GoodbyeSent { pub info: ServiceInfo, pub intf: MyIntf, pub sock: PktInfoUdpSocket, pub packet: Seq<u8> }
+impl Zeroconf {
+    #[verifier::external_body]
+    pub fn unregister_service(&self, info: &ServiceInfo, intf: &MyIntf, sock: &PktInfoUdpSocket, vx_glog: &mut Ghost<Seq<GoodbyeSent>>) -> (r: Vec<u8>)
+        ensures final(vx_glog)@ == old(vx_glog)@.push(GoodbyeSent { info: *info, intf: *intf, sock: *sock, packet: r@ }),
+    { unimplemented!() }
+}
+pub open spec fn goodbye_to(l: Seq<GoodbyeSent>, n0: int, info: ServiceInfo, intf: MyIntf, sock: PktInfoUdpSocket) -> bool {
+    exists|k: int| n0 <= k < l.len() && (#[trigger] l[k]).info == info && l[k].intf == intf && l[k].sock == sock
+}
+pub open spec fn goodbye_with(l: Seq<GoodbyeSent>, n0: int, info: ServiceInfo, idx: u32, sock: PktInfoUdpSocket, packet: Seq<u8>, my: Map<u32, MyIntf>) -> bool {
+    exists|k: int| n0 <= k < l.len() && (#[trigger] l[k]).info == info && my.contains_key(idx) && l[k].intf == my[idx] && l[k].sock == sock && l[k].packet == packet
+}
+pub proof fn lemma_goodbye_push(l: Seq<GoodbyeSent>, x: GoodbyeSent, n0: int)
+    requires 0 <= n0 <= l.len(),
+    ensures
+        forall|info: ServiceInfo, intf: MyIntf, sock: PktInfoUdpSocket| goodbye_to(l, n0, info, intf, sock) ==> #[trigger] goodbye_to(l.push(x), n0, info, intf, sock),
+        goodbye_to(l.push(x), n0, x.info, x.intf, x.sock),
+        forall|info: ServiceInfo, idx: u32, sock: PktInfoUdpSocket, p: Seq<u8>, my: Map<u32, MyIntf>| goodbye_with(l, n0, info, idx, sock, p, my) ==> #[trigger] goodbye_with(l.push(x), n0, info, idx, sock, p, my),
+{
+    assert forall|info: ServiceInfo, intf: MyIntf, sock: PktInfoUdpSocket| goodbye_to(l, n0, info, intf, sock) implies #[trigger] goodbye_to(l.push(x), n0, info, intf, sock) by {
+        let k = choose|k: int| n0 <= k < l.len() && (#[trigger] l[k]).info == info && l[k].intf == intf && l[k].sock == sock;
+        assert(l.push(x)[k] == l[k]);
+    }
+    assert(l.push(x)[l.len() as int] == x);
+    assert forall|info: ServiceInfo, idx: u32, sock: PktInfoUdpSocket, p: Seq<u8>, my: Map<u32, MyIntf>| goodbye_with(l, n0, info, idx, sock, p, my) implies #[trigger] goodbye_with(l.push(x), n0, info, idx, sock, p, my) by {
+        let k = choose|k: int| n0 <= k < l.len() && (#[trigger] l[k]).info == info && my.contains_key(idx) && l[k].intf == my[idx] && l[k].sock == sock && l[k].packet == p;
+        assert(l.push(x)[k] == l[k]);
+    }
+}
+// R20 for multicast_on_intf (socket code): the same call plus a ghost log of (bytes, interface index, socket)
+pub ghost struct BytesSent { pub bytes: Seq<u8>, pub if_index: u32, pub sock: PktInfoUdpSocket }
+#[verifier::external_body]
+pub fn multicast_on_intf(packet: &[u8], if_name: &str, if_index: u32, if_addr: &IfAddr, socket: &PktInfoUdpSocket, port: u16, vx_blog: &mut Ghost<Seq<BytesSent>>)
+    ensures final(vx_blog)@ == old(vx_blog)@.push(BytesSent { bytes: packet@, if_index: if_index, sock: *socket }),
+{ unimplemented!() }
+impl MyIntf {
+    // the first address of that family (iterator `find` over a HashSet; assumed)
+    #[verifier::external_body]
+    pub fn next_ifaddr_v4(&self) -> (r: Option<&IfAddr>) { unimplemented!() }
+    #[verifier::external_body]
+    pub fn next_ifaddr_v6(&self) -> (r: Option<&IfAddr>) { unimplemented!() }
+}
